@@ -13,7 +13,7 @@ from .report import RuleResult
 from .terms import (Attr, BoundMethod, Call, ClassRef, Comp, Const, EnumMember, Evaluator, Ext, FuncRef, Ite, Loop, New,
                     Op, Opaque, Outcome, Sub, Sym, Term, TupleT, alternatives, default_inline, guards_repr, norm_guards, flat_guards,
                     walk)
-from .util import all_terms, call_name, call_recv, method_calls, none_test
+from .util import search_tests, all_terms, call_name, call_recv, method_calls, none_test
 
 # binding order (property C02): A = activator, B = behaviour, Tr = trigger, T = terminator
 D1_TABLE = {
@@ -284,6 +284,12 @@ def _helpers(ctx: Ctx, r: RuleResult, pc, self_t: Term):
                         for rg, exc in e.raises:
                             if 'HplSanityError' in repr(exc) and any(pol and isinstance(t, Op) and t.op == '==' and Attr(self_q, 'variable') in t.args for t, pol in flat_guards(rg)):
                                 walked = True
+                if o.kind == 'raise' and 'HplSanityError' in repr(o.value):
+                    # the search forms: any(... for x in value.iterate()), next(filter(pred, value.iterate()), None)
+                    for it, each, cond in search_tests(ctx.ev, o.guards):
+                        if isinstance(it, Call) and call_name(it) == 'iterate' and call_recv(it) == val \
+                                and any(pol and isinstance(t, Op) and t.op == '==' and Attr(self_q, 'variable') in t.args for t, pol in flat_guards(((cond, True),))):
+                            walked = True
         if walked:
             r.ok(f'HplQuantifier.{fld}: every node of the sub-tree is compared with the bound variable')
         else:
